@@ -11,14 +11,14 @@
    includes termination.
 
    After the repairs (splitPattern; leveldb seek guard; prefixFilterEntries' lastFileName;
-   refills keep lastFileName) the full statement holds for every store, directory and
+   refills keep lastFileName; a stopped callback is not called again) the full statement holds for every store, directory and
    request, except when a prefix AND a name pattern are given together (the code documents
    them as mutually exclusive) AND the pattern's literal prefix is empty or does not extend the
    requested prefix: finding 0, decidable trigger [trig_narrow] (a subset of [trig_both]).
-   Callbacks that stop a listing early: see the c19_stop_* theorems (finding 1). *)
+   Callbacks that stop a listing early: c19_stop_exact, c19_grpc_limit (full; formerly finding 1). *)
 From Coq Require Import List NArith Bool String Ascii Arith.
 From SW Require Import model.Listing proof.ListingBase proof.ListingStore proof.ListingScan proof.ListingPattern
-                       proof.ListingProofs proof.ListingWitness proof.ListingStop.
+                       proof.ListingProofs proof.ListingWitness proof.ListingStop proof.ListingStopSpec.
 Import ListNotations.
 Local Open Scope string_scope.
 Local Open Scope list_scope.
@@ -119,48 +119,48 @@ Theorem c19_paginate_stream : forall fuel s d start incl limit prefix,
 Proof. exact paginate_stream_exact. Qed.
 Print Assumptions c19_paginate_stream.
 
-(* ---------- callbacks that stop the listing (finding 1) ---------- *)
-(* partial (trigger: the callback answers false at some call): with a callback that never
-   refuses, the stop-aware StreamListDirectoryEntries IS the listing of the first part ... *)
-Theorem c19_stop_partial_same : forall s d start incl limit prefix pat excl ans,
-  trig_stop ans = false ->
+(* ---------- callbacks that stop the listing ---------- *)
+(* (formerly finding 1, repaired by "fix: a listing callback that returned false is not called
+   again by the refill loops")
+   full: for EVERY callback - modelled as the list of its answers, true once exhausted - the
+   stop-aware StreamListDirectoryEntries terminates and hands the callback exactly the first
+   stop_want limit ans = min(limit, index of the first false + 1) entries of the selection; only
+   expired children leave the directory; the returned lastFileName is a correct place to continue
+   from; a callback that answered false is not called again *)
+Theorem c19_stop_exact : forall s d start incl limit prefix pat excl ans,
+  wf d ->
+  exists rs, stream_list_s s d start incl limit prefix pat excl ans = Some rs /\
+    s_names rs = map ename (firstn (stop_want limit ans) (impl_sel start incl prefix pat excl d)) /\
+    wf (s_dir rs) /\ filter elive (s_dir rs) = filter elive d /\
+    (s_last rs <> "" -> impl_sel (s_last rs) false prefix pat excl (s_dir rs) =
+                        skipn (stop_want limit ans) (impl_sel start incl prefix pat excl d)) /\
+    (s_last rs = "" -> s_names rs = []) /\
+    stop_respected ans (s_names rs) = true.
+Proof. exact stream_list_s_full. Qed.
+Print Assumptions c19_stop_exact.
+
+(* full: with a callback that never refuses, the stop-aware StreamListDirectoryEntries IS the
+   listing of the first part (names, lastFileName, directory afterwards, termination) - not a
+   finding trigger: the hypothesis is what "the same" means *)
+Theorem c19_stop_same : forall s d start incl limit prefix pat excl ans,
+  forallb (fun b => b) ans = true ->
   match stream_list s d start incl limit prefix pat excl with
   | Some r => exists rs, stream_list_s s d start incl limit prefix pat excl ans = Some rs /\
                          s_names rs = r_names r /\ s_last rs = r_last r /\ s_dir rs = r_dir r /\ s_miss rs = 0
   | None => stream_list_s s d start incl limit prefix pat excl ans = None
   end.
 Proof. exact stream_list_s_true. Qed.
-Print Assumptions c19_stop_partial_same.
+Print Assumptions c19_stop_same.
 
-(* ... hence terminates and emits exactly the first [limit] entries of the selection *)
-Theorem c19_stop_partial : forall s d start incl limit prefix pat excl ans,
-  wf d -> trig_stop ans = false ->
-  exists rs, stream_list_s s d start incl limit prefix pat excl ans = Some rs /\
-    s_names rs = map ename (firstn limit (impl_sel start incl prefix pat excl d)) /\
-    wf (s_dir rs) /\ filter elive (s_dir rs) = filter elive d.
-Proof. exact stream_list_s_exact. Qed.
-Print Assumptions c19_stop_partial.
-
-(* refuted inside the trigger: a callback that returned false on its first call is called
-   again by both refill loops (witnesses confirmed on the real Filer, all stores) *)
-Theorem c19_stop_refuted :
-  wf stop_dir /\ wf stop_dir_live /\ trig_stop [false] = true /\
-  s_proj (stream_list_s Lvl stop_dir "" false 3 "" "" "" [false]) = Some (["b"; "c"], "c") /\
-  s_proj (stream_list_s Gen stop_dir "" false 3 "" "" "" [false]) = Some (["b"; "c"], "c") /\
-  s_proj (stream_list_s Lvl stop_dir_live "" false 2 "" "" "a" [false]) = Some (["b"; "c"], "c") /\
-  s_proj (stream_list_s Gen stop_dir_live "" false 2 "" "" "a" [false]) = Some (["b"; "c"], "c") /\
-  stop_respected [false] ["b"; "c"] = false.
-Proof. exact stop_refuted. Qed.
-Print Assumptions c19_stop_refuted.
-
-(* refuted: "at most the limit" for the gRPC server's loop (overall limit 3, page size 2) *)
-Theorem c19_grpc_limit_refuted :
-  wf grpc_dir /\
-  grpc_list 10 Lvl grpc_dir "" false 3 2 "" = Some [["a"; "b"]; ["d"; "e"]] /\
-  grpc_list 10 Gen grpc_dir "" false 3 2 "" = Some [["a"; "b"]; ["d"; "e"]] /\
-  firstn 3 (spec_names grpc_dir "" false "" "" "") = ["a"; "b"; "d"].
-Proof. exact grpc_refuted. Qed.
-Print Assumptions c19_grpc_limit_refuted.
+(* full: the gRPC server's loop (overall limit, page size pag >= 1) terminates and sends exactly
+   the first [limit] matches of the prefix listing, never more, in pages of at most pag entries *)
+Theorem c19_grpc_limit : forall fuel s d start incl limit pag prefix,
+  wf d -> 0 < pag -> List.length (spec_names d start incl prefix "" "") < fuel ->
+  exists pages, grpc_list fuel s d start incl limit pag prefix = Some pages /\
+                List.concat pages = firstn limit (spec_names d start incl prefix "" "") /\
+                Forall (fun pg => List.length pg <= pag) pages.
+Proof. exact grpc_list_exact. Qed.
+Print Assumptions c19_grpc_limit.
 
 (* ---------- c19_expired_refill ---------- *)
 (* full: doListValidEntries terminates; the page of valid entries is the first [limit] LIVE
@@ -228,10 +228,26 @@ Example c19_example_narrow :
 Proof. exact narrow_example. Qed.
 Print Assumptions c19_example_narrow.
 
+(* the former witnesses of finding 1: a callback that answered false on its first call is not
+   called again by either refill loop; the gRPC loop with limit 3 and page size 2 sends 3 entries *)
+Example c19_repaired_stop :
+  wf stop_dir /\ wf stop_dir_live /\ wf grpc_dir /\
+  s_proj (stream_list_s Lvl stop_dir "" false 3 "" "" "" [false]) = Some (["b"], "b") /\
+  s_proj (stream_list_s Gen stop_dir "" false 3 "" "" "" [false]) = Some (["b"], "b") /\
+  s_proj (stream_list_s Lvl stop_dir_live "" false 2 "" "" "a" [false]) = Some (["b"], "b") /\
+  s_proj (stream_list_s Gen stop_dir_live "" false 2 "" "" "a" [false]) = Some (["b"], "b") /\
+  stop_respected [false] ["b"] = true /\
+  grpc_list 10 Lvl grpc_dir "" false 3 2 "" = Some [["a"; "b"]; ["d"]] /\
+  grpc_list 10 Gen grpc_dir "" false 3 2 "" = Some [["a"; "b"]; ["d"]] /\
+  firstn 3 (spec_names grpc_dir "" false "" "" "") = ["a"; "b"; "d"].
+Proof. exact stop_repaired. Qed.
+Print Assumptions c19_repaired_stop.
+
 Example c19_example_stop :
-  trig_stop [true; true] = false /\
+  stop_want 2 [true; true] = 2 /\ stop_want 3 [true; false] = 2 /\ stop_want 4 [true; false; false] = 2 /\
   s_proj (stream_list_s Lvl stop_dir "" false 2 "" "" "" [true; true]) = Some (["b"; "c"], "c") /\
   s_proj (stream_list_s Gen stop_dir "" false 2 "" "*" "d" [true; true]) = Some (["b"; "c"], "c") /\
-  s_proj (stream_list_s Lvl stop_dir_live "" false 3 "" "" "" [true; false]) = Some (["a"; "b"], "b").
+  s_proj (stream_list_s Lvl stop_dir_live "" false 3 "" "" "" [true; false]) = Some (["a"; "b"], "b") /\
+  s_proj (stream_list_s Gen stop_dir "" false 4 "" "" "b" [true; false; false]) = Some (["c"; "d"], "d").
 Proof. exact stop_example. Qed.
 Print Assumptions c19_example_stop.
